@@ -54,7 +54,7 @@ func (t *apqTr) str(e ast.Expr) (string, bool) {
 	return "", false
 }
 
-func leanStr(s string) string { return strconv.Quote(s) }
+func apqLeanStr(s string) string { return strconv.Quote(s) }
 
 // errorf recognises gqlerror.Errorf(<string>) and returns the message.
 func (t *apqTr) errorf(e ast.Expr) (string, bool) {
@@ -137,15 +137,15 @@ func (t *apqTr) prog(ss []ast.Stmt, rest []ast.Stmt) string {
 			return "(.ret .pass)"
 		}
 		if m, ok := t.errorf(r); ok {
-			return "(.ret (.err " + leanStr(m) + " none))"
+			return "(.ret (.err " + apqLeanStr(m) + " none))"
 		}
 		if id, ok := r.(*ast.Ident); ok {
 			if e, ok := t.errs[id.Name]; ok {
 				code := "none"
 				if e[1] != "" {
-					code = "(some " + leanStr(e[1]) + ")"
+					code = "(some " + apqLeanStr(e[1]) + ")"
 				}
-				return "(.ret (.err " + leanStr(e[0]) + " " + code + "))"
+				return "(.ret (.err " + apqLeanStr(e[0]) + " " + code + "))"
 			}
 		}
 		return t.fail(s, "unrecognised return")
@@ -207,7 +207,7 @@ func (t *apqTr) prog(ss []ast.Stmt, rest []ast.Stmt) string {
 	return t.fail(s, "unrecognised statement")
 }
 
-func findFunc(f *ast.File, recv, name string) *ast.FuncDecl {
+func apqFindFunc(f *ast.File, recv, name string) *ast.FuncDecl {
 	for _, d := range f.Decls {
 		fd, ok := d.(*ast.FuncDecl)
 		if !ok || fd.Name.Name != name {
@@ -227,8 +227,8 @@ func findFunc(f *ast.File, recv, name string) *ast.FuncDecl {
 	return nil
 }
 
-// bodySrc: whitespace-normalised source of a function body's statements, "; "-joined.
-func bodySrc(fset *token.FileSet, fd *ast.FuncDecl) string {
+// apqBodySrc: whitespace-normalised source of a function body's statements, "; "-joined.
+func apqBodySrc(fset *token.FileSet, fd *ast.FuncDecl) string {
 	var parts []string
 	for _, s := range fd.Body.List {
 		var sb strings.Builder
@@ -265,7 +265,7 @@ func extractApqProg(repo string) (string, error) {
 			}
 		}
 	}
-	fd := findFunc(f, "AutomaticPersistedQuery", "MutateOperationParameters")
+	fd := apqFindFunc(f, "AutomaticPersistedQuery", "MutateOperationParameters")
 	if fd == nil {
 		return "", fmt.Errorf("MutateOperationParameters not found")
 	}
@@ -286,7 +286,7 @@ func extractApqProg(repo string) (string, error) {
 	if len(t.bad) > 0 {
 		return "", fmt.Errorf("cannot translate MutateOperationParameters:\n  %s", strings.Join(t.bad, "\n  "))
 	}
-	hf := findFunc(f, "", "computeQueryHash")
+	hf := apqFindFunc(f, "", "computeQueryHash")
 	if hf == nil {
 		return "", fmt.Errorf("computeQueryHash not found")
 	}
@@ -294,7 +294,7 @@ func extractApqProg(repo string) (string, error) {
 		{"extKey", t.key},
 		{"shaField", tags["Sha256"]},
 		{"versionField", tags["Version"]},
-		{"hashBody", bodySrc(fset, hf)},
+		{"hashBody", apqBodySrc(fset, hf)},
 	}
 	lf, err := parse("graphql/handler/lru/lru.go")
 	if err != nil {
@@ -305,11 +305,11 @@ func extractApqProg(repo string) (string, error) {
 		if m == "New" {
 			recv = ""
 		}
-		fd := findFunc(lf, recv, m)
+		fd := apqFindFunc(lf, recv, m)
 		if fd == nil {
 			return "", fmt.Errorf("lru.%s not found", m)
 		}
-		src := bodySrc(fset, fd)
+		src := apqBodySrc(fset, fd)
 		if m == "New" { // only the constructor call matters
 			i := strings.Index(src, ";")
 			if i > 0 {
@@ -323,11 +323,11 @@ func extractApqProg(repo string) (string, error) {
 		return "", err
 	}
 	for _, rm := range [][2]string{{"MapCache", "Get"}, {"MapCache", "Add"}, {"NoCache", "Get"}, {"NoCache", "Add"}} {
-		fd := findFunc(cf, rm[0], rm[1])
+		fd := apqFindFunc(cf, rm[0], rm[1])
 		if fd == nil {
 			return "", fmt.Errorf("%s.%s not found", rm[0], rm[1])
 		}
-		facts = append(facts, [2]string{strings.ToLower(rm[0][:1]) + rm[0][1:] + rm[1], bodySrc(fset, fd)})
+		facts = append(facts, [2]string{strings.ToLower(rm[0][:1]) + rm[0][1:] + rm[1], apqBodySrc(fset, fd)})
 	}
 	var sb strings.Builder
 	sb.WriteString("import GqlgenVerif.Model.ApqProg\n")
@@ -335,7 +335,7 @@ func extractApqProg(repo string) (string, error) {
 	sb.WriteString("namespace GqlgenVerif.Gen.ApqProg\nopen GqlgenVerif.Apq\n\n")
 	sb.WriteString("def prog : Prog :=\n  " + prog + "\n\n")
 	for _, kv := range facts {
-		sb.WriteString("def " + kv[0] + " : String := " + leanStr(kv[1]) + "\n")
+		sb.WriteString("def " + kv[0] + " : String := " + apqLeanStr(kv[1]) + "\n")
 	}
 	sb.WriteString("\nend GqlgenVerif.Gen.ApqProg\n")
 	return sb.String(), nil
